@@ -310,7 +310,7 @@ def c_strlen(ex, st, th, a):
 
 @model('memcpy', 'memmove')
 def c_memcpy(ex, st, th, a):
-    n = ex.need_int(st, a[2], 'memcpy length')
+    n = ex.copy_len(st, a[0], a[1], a[2])
     if n:
         cells = ex.read_cells(st, a[1], n)
         ex.write_cells(st, a[0], list(cells))
@@ -583,8 +583,12 @@ def yield_(ex, st, th, a):
 
 # ---------------------------------------------------------------- harness intrinsics
 def _fresh(ex, st, name, w, kind='in'):
+    if ex.tape is not None:
+        v = ex.tape[st.nin] if st.nin < len(ex.tape) else 0
+        st.nin += 1
+        return v & ((1 << w) - 1)
     st.nin += 1
-    nm = '%s#%d' % (name, st.nin)
+    nm = '%s#%d.%d' % (name, st.nin, w)
     st.inputs.append((nm, w, kind))
     return X.var(nm, w)
 
@@ -608,7 +612,7 @@ def vp_bytes(ex, st, th, a):
     cells = []
     for i in range(n):
         v = _fresh(ex, st, '%s[%d]' % (name, i), 8)
-        cells.append((v, 0))
+        cells.append((v, 0) if type(v) is E else v)
     ex.write_cells(st, a[0], cells)
 
 
@@ -617,6 +621,8 @@ def vp_choose(ex, st, th, a):
     """concrete fork over 0..n-1 (structural choice, not data)"""
     n = ex.need_int(st, a[0])
     v = _fresh(ex, st, ex.cstring(st, a[1]), 32, 'choice')
+    if type(v) is not E:
+        return v % n if n else 0
     st.add_pc(X.ult(v, n, 32))
     # recorded as input; concretised immediately by complete enumeration
     return v
@@ -692,6 +698,15 @@ def vp_out(ex, st, th, a):
 @model('vp_note')
 def vp_note(ex, st, th, a):
     st.notes.append((ex.cstring(st, a[0]), a[1]))
+
+
+@model('vp_watch')
+def vp_watch(ex, st, th, a):
+    addr = ex.need_int(st, a[0])
+    n = ex.need_int(st, a[1])
+    o = st.find(addr)
+    if o is not None:
+        st.watch[o.base] = [addr - o.base, addr - o.base + n, set(), ex.cstring(st, a[2])]
 
 
 @model('vp_is_symbolic')
